@@ -80,10 +80,10 @@ impl Monitor for C14 {
         "cases = seeded universes with soft lists (compatible, incompatible, duplicates, other versions of installed packages, two versions of an unrequested package, excluded, locked-out, Unknown-dependency solvables), sync and async; lists of length <= 4 are additionally run in EVERY order. Oracle: (i) if a brute-force search finds the hard problem solvable the call returns Ok; (ii) the result is valid by the reference rules (soft-named solvables exempt from their own package's lock/exclusion list only; one solvable per package and Unknown-dependency rejection always) plus hook invariants; (iii) if the hard problem is conflict-free and the union of its first-choice closure with the closures of all soft solvables is valid with every requirement met exactly by its first choice, every soft solvable is in the result; (iv) hard part of the result is unchanged in validity terms. distinct = content hash incl. soft order; non-trivial = distinct case whose list had >= 1 accepted and >= 1 rejected soft solvable".into()
     }
     fn cases(&self, tier: Tier) -> u64 {
-        tier.pick(25_000, 1_200_000)
+        tier.pick(200_000, 4_000_000)
     }
     fn floor(&self, tier: Tier) -> u64 {
-        tier.pick(1_000, 50_000)
+        tier.pick(4_000, 40_000)
     }
     fn generate(&self, r: &mut Rng, _tier: Tier, i: u64) -> C14Case {
         let (name, _) = pick_family(r, FAMILIES);
